@@ -261,6 +261,11 @@ Proof.
   rewrite <- (app_nil_r bs) at 2. change [SLASH] with (cpath []). apply (from_base_cpath Hb). constructor.
 Qed.
 
+Theorem getwd_spec B base_cwd :
+  (exists ws, Forall name ws /\ bp_getwd Linux B base_cwd = Some (cpath ws))
+  /\ (clean_abs_path B -> has_base_path Linux B base_cwd = false -> bp_getwd Linux B base_cwd = Some [SLASH]).
+Proof. split; [apply getwd_total|apply getwd_outside]. Qed.
+
 (* ---- the pinned code does NOT confine, and its reverse translation panics ---- *)
 Definition s_b : str := [SLASH; 98%N].                          (* "/b" *)
 Definition s_escape : str := [SLASH; DOT; DOT; SLASH; 115%N].   (* "/../s" *)
